@@ -211,7 +211,7 @@ def run(prop, tier, seed, replay=None):
         c.sample({'text': r['text'], 'opts': r['opts'], 'ml': r['ml'], 'outcome': r['outcome'],
                   'parts': [{'plain': chars.dec(p['plain']), 'map': p['map']} for p in r['parts']][:2], 'verdict': verdicts[r['id']][key]})
     c.exhaustive = False
-    c.assumptions = ['per-case time limit %ss counts as a hang' % drivers.CASE_TIMEOUT,
+    c.assumptions = ['per-case limit of %ss CPU time (wall clock 40 times that) counts as a hang' % drivers.CASE_TIMEOUT,
                      'outside the claim (as in the statement): self-recursive definitions (decided by ObsFree!SelfRec on the document)']
     return c.finish()
 
